@@ -24,9 +24,11 @@ EVALUATORS = {
     're.match': (0, {'re.error'}, 'an ill-formed pattern raises re.error'),
     're.search': (0, {'re.error'}, 'an ill-formed pattern raises re.error'),
     're.fullmatch': (0, {'re.error'}, 'an ill-formed pattern raises re.error'),
-    'typing.Pattern.sub': (0, {'re.error'}, 'an ill-formed replacement template (e.g. a bad group reference) raises '
-                                            're.error when the substitution is made'),
-    're.Pattern.sub': (0, {'re.error'}, 'an ill-formed replacement template raises re.error'),
+    'typing.Pattern.sub': (0, {'re.error', 'builtins.IndexError'},
+                           'an ill-formed replacement template raises re.error (bad escape, invalid group number) or '
+                           'IndexError (unknown group name) when the substitution is made'),
+    're.Pattern.sub': (0, {'re.error', 'builtins.IndexError'}, 'an ill-formed replacement template raises re.error / '
+                                                               'IndexError'),
     'pathlib.Path.match': (0, {'builtins.ValueError'}, 'an empty pattern raises ValueError'),
     'pathlib.PurePath.match': (0, {'builtins.ValueError'}, 'an empty pattern raises ValueError'),
     'pathlib.PurePosixPath.match': (0, {'builtins.ValueError'}, 'an empty pattern raises ValueError'),
@@ -59,6 +61,7 @@ def check(c: Check):
     clause_a(c)
     clause_b(c)
     clause_c(c)
+    clause_e(c)
     if c.tier == 'thorough':
         clause_d(c)
 
@@ -273,10 +276,26 @@ def clause_c(c: Check):
                 ('overflow-error', ('raise', External('builtins.OverflowError'))),
                 ('value', lambda: Sym('value', origin=('v',)))]
     hooks.fork_on(lambda d, n, cv: isinstance(d, External) and d.dotted == 'builtins.eval', outcomes)
+    def str_in_try_body(d, n, cv):
+        return isinstance(d, External) and d.dotted == 'builtins.str' and any(
+            part == 'body' for t, part in util.enclosing_trys(n, stop=pe.node)) and not any(
+            part == 'handler' for t, part in util.enclosing_trys(n, stop=pe.node))
+
+    hooks.fork_on(str_in_try_body, [
+        ('too-large-for-text', ('raise', External('builtins.ValueError'))), ('text', lambda: Sym('text'))])
     seen = set()
+    n_text_checks = 0
     for p in util.func_paths(ix, fo, pe, hooks):
-        lab = labels_of(p)[0]
+        labs_all = labels_of(p)
+        lab = labs_all[0]
         seen.add(lab)
+        if lab == 'value' and 'too-large-for-text' in labs_all:
+            n_text_checks += 1
+            ok = p.kind == 'raise' and isinstance(p.val, Exc) and p.val.cls == nai
+            c.expect(ok, 'C18-c', 'python_evaluate/too-large-for-text',
+                     'an integer that cannot be converted to text (more digits than the interpreter converts) is not '
+                     'rejected as "not an integer"', pe.loc())
+            continue
         if lab == 'value':
             ok = (p.kind == 'return' and getattr(util.root_sym(p.val), 'label', None) == 'value') or \
                  (p.kind == 'raise' and isinstance(p.val, Exc) and p.val.cls == nai)
@@ -288,6 +307,9 @@ def clause_c(c: Check):
                      'an integer expression that raises %s at evaluation is not reported as "not an integer": it '
                      'surfaces as INTERNAL_ERROR (%s)' % (lab, util.describe(p.val)), pe.loc())
     c.require(len(seen) == len(outcomes), 'C18-c: python_evaluate outcomes %s' % seen)
+    c.expect(n_text_checks >= 1, 'C18-c', 'python_evaluate/text-conversion-checked',
+             'the evaluated integer is never converted to text under the handler: an integer with more digits than the '
+             'interpreter converts (e.g. 10**5000) raises an uncaught ValueError when a message shows it', pe.loc())
     # the integer validator turns it into an error message in both steps
     val = ix.cls('exactly_lib.impls.types.integer.integer_ddv:_IntegerDdvValidator')
     for meth_name, dep in (('validate_pre_sds_if_applicable', False), ('validate_post_sds_if_applicable', True)):
@@ -358,3 +380,44 @@ def clause_d(c: Check):
                 c.expect(not missing, 'C18-d', 'visitor-total/%s' % sub.key,
                          '%s does not handle %s (NotImplementedError at run time)' % (sub.name, missing), sub.loc())
     c.floor('C18-d', 'concrete visitors checked', n, 30)
+
+
+# ---------------------------------------------------------------- e
+_REMAINING_ATTRS = ('remaining_source', 'remaining_part_of_current_line', 'remaining_source_after_head')
+_EMPTINESS_GUARDS = ('is_at_eol', 'is_at_eof', 'is_null', 'has_current_line', 'len(')
+
+
+def clause_e(c: Check):
+    """first-character tests on the remaining source: after initial space is consumed the remaining text may be
+    empty (a line of form feed / vertical tab only is not a blank line for the document parser but is all space);
+    `remaining[0]` then raises IndexError -> INTERNAL_ERROR instead of a syntax error"""
+    ix = c.ix
+    n = 0
+    for name in ix.all_module_names():
+        if not name.startswith(('exactly_lib.section_document.', 'exactly_lib.processing.parse.')):
+            continue
+        t = ix.text(name)
+        if '[0]' not in t or not any(a in t for a in _REMAINING_ATTRS):
+            continue
+        m = ix.module(name)
+        for node in ast.walk(m.tree):
+            if not (isinstance(node, ast.Subscript) and isinstance(node.slice, ast.Constant) and node.slice.value == 0
+                    and isinstance(node.ctx, ast.Load)):
+                continue
+            v = node.value
+            if not (isinstance(v, ast.Attribute) and v.attr in _REMAINING_ATTRS):
+                continue
+            n += 1
+            f = m.enclosing_func(node)
+            guarded = False
+            if f is not None:
+                # an emptiness guard that returns / raises before the subscript, in the same function
+                for st in ast.walk(f.node):
+                    if isinstance(st, ast.If) and st.lineno < node.lineno and any(g in unparse(st.test) for g in _EMPTINESS_GUARDS) \
+                            and any(isinstance(x, (ast.Return, ast.Raise)) for x in st.body):
+                        guarded = True
+            c.expect(guarded, 'C18-e', 'first-char-of-remaining-source@' + (f.key if f else name),
+                     '%s[0] is read without checking that text remains: a line consisting of non-blank white space only '
+                     '(form feed, vertical tab) gives IndexError -> INTERNAL_ERROR' % unparse(v),
+                     '%s:%d' % (m.relpath, node.lineno))
+    c.floor('C18-e', 'first-character tests on remaining source', n, 1)
